@@ -116,8 +116,18 @@ def main():
         except Exception:
             old = []
     ids = {r["id"] for r in rows}
+    by_design = set()
+    for r in rows:
+        try:
+            if json.load(open(os.path.join(root, r["id"], "meta.json"))).get("judgement"):
+                by_design.add(r["id"])
+                r["not_flagged_by_design"] = True
+        except Exception:
+            pass
     json.dump([r for r in old if r["id"] not in ids] + rows, open(rep, "w"), indent=1)
-    missed = [r["id"] for r in rows if not r.get("caught")]
+    missed = [r["id"] for r in rows if not r.get("caught") and r["id"] not in by_design]
+    if by_design:
+        print("judged outside the property (see meta.json:judgement), result not counted: %s" % sorted(by_design))
     print("%d seeded changes, missed: %s" % (len(rows), missed))
     sys.exit(1 if missed else 0)
 
